@@ -287,6 +287,7 @@ func (Engine) Run(c *choice.Src, o engine.Opt) (out engine.Out) {
 	out.SimTime["context_switches"] += sim.Switches
 	out.SimTime["go_objects_handed_to_C_and_reported_to_race_detector"] += sim.CArgs
 	out.SimTime["go_objects_modified_by_C"] += sim.CWrites
+	out.Faults["sched.map_iteration_order_drawn"] += sim.MapOrders
 	out.Probes["lock_contended"] += sim.Contended
 	out.Probes["switch_inside_critical_section"] += sim.SwitchInCrit
 	if sim.Switches > ntasks {
